@@ -1,4 +1,4 @@
-(* Design probe: C19 - Merkle root as internal/merkle builds it (pairwise, last node paired with itself). *)
+(* C19 - Merkle root as internal/merkle builds it (pairwise, last node paired with itself). *)
 From Coq Require Import List Arith Lia.
 Import ListNotations.
 
@@ -64,5 +64,3 @@ Proof. unfold root. intros Hl Hne He. rewrite <- Hl in He. apply (root_fuel_inj 
 Theorem root_dup_last_refuted a b c : root [a; b; c] = root [a; b; c; c].
 Proof. reflexivity. Qed.
 End Merkle.
-Print Assumptions root_inj_same_length.
-Print Assumptions root_dup_last_refuted.
